@@ -75,7 +75,7 @@ func addOrderLimitOffset(flat core.FlatRowSource, query *sql.Query) core.FlatRow
 		flat = core.Offset(flat, query.Offset)
 	}
 
-	if query.Limit > 0 {
+	if query.Limit > 0 || (query.HasLimit && query.Limit == 0) {
 		flat = core.Limit(flat, query.Limit)
 	}
 
